@@ -484,7 +484,7 @@ class Dec(Suite):
     name = "dec"
     go_cmd = "c12"
     coq_imports = "From GoGit Require Import Model.IndexFile."
-    quick_n = 120
+    quick_n = 100
     thorough_n = 600
     coq_chunk = 25
 
@@ -595,7 +595,7 @@ class Enc(Suite):
     name = "enc"
     go_cmd = "c12"
     coq_imports = "From GoGit Require Import Model.IndexFile."
-    quick_n = 80
+    quick_n = 60
     thorough_n = 800
     coq_chunk = 40
 
